@@ -1,26 +1,48 @@
 """C19 — script-implemented library commands leave no trace in the caller's variables.
 
-Proved (coq/props/C19.v): (1) on a model of the wrapper (AliasCommand::run) and for EVERY body: no
-variable under the scope prefix remains and the argument array is released; for a body confined
-to the prefix no caller variable changes (up to documented deletions) and the wrapper's leak crash
-cannot fire; (2) every script.ds of the current tree, regenerated from source on each run, passes
-a decidable syntactic confinement check (prefix of the wrapper it is registered with; only
-variable-pure commands).  NOT proved (`confined_sound`): that a script passing the syntactic check
-is confined when interpreted — that needs the whole interpreter; it is covered by the
-correspondence run below, which also validates the table of variable-pure native commands the
-syntactic check relies on.
+Proved (coq/props/C19.v):
+(1) on a model of the wrapper (AliasCommand::run) and for EVERY body: no variable under the scope prefix remains and the
+    argument array is released; for a body confined to the prefix no caller variable changes (up to documented deletions)
+    and the wrapper's leak crash cannot fire;
+(2) every script.ds of the current tree, regenerated from source on each run, passes a decidable syntactic confinement
+    check (C19_scripts) and its strengthened form on the instructions the runner sees (C19_scripts_strong / C19_table_ok);
+(3) `confined_sound` (C19_confined_sound, C19_confined_sound_scripts, C19_every_script_command): a script passing the
+    check, run by the model of eval_instructions / run_instruction / bind_command_arguments / AliasCommand::run /
+    eval_condition (ScriptBody.v; scripts calling scripts and conditions running commands by induction on nesting depth),
+    IS confined — for all native commands satisfying the frame hypotheses `frame_hyps` (one clause per class of the
+    check; EVERY clause has a named validation against the real SDK below) and for runs that end with the ghost flag
+    down.  The flag goes up only when eval_condition re-parses received arguments into an instruction that fails the
+    check: arguments outside C09's safe classes (C19_condition_site shows safe ones never raise it) or a tested VALUE
+    naming a registered command outside the tables (C19_condition_static: literal command words are checked statically);
+(4) the flag hypothesis cannot be dropped (C19_confined_sound_unflagged_refuted): array_concat's own text deletes the
+    caller's variable `is_array` when an argument is "=".  The same run is replayed here on the extracted model AND on
+    the real SDK (known finding KF-C19-1, a consequence of C09's F7-E inside script commands).
 
-Correspondence: every script command x argument pools x calling contexts on the real SDK: the
-caller's variables before/after, variables left under any scope:: prefix, handles left behind."""
+Correspondence: every script command x argument pools x calling contexts on the real SDK: the caller's variables
+before/after, variables left under any scope:: prefix, handles left behind; plus the frame-hypothesis validations."""
 import os
 import shutil
 import vlib
 from vlib import enc_str, dec_str, enc_list, dec_list
 
 THEOREMS = ["C19_scripts", "C19_scripts_parse", "C19_scripts_nonvacuous", "C19_no_working_variable",
-            "C19_argument_array_released", "C19_caller_variables", "C19_caller_variables_mod", "C19_leak_check_never_fires"]
+            "C19_argument_array_released", "C19_caller_variables", "C19_caller_variables_mod", "C19_leak_check_never_fires",
+            # confined_sound (builder task B1)
+            "C19_scripts_strong", "C19_table_ok", "C19_confined_sound", "C19_confined_sound_scripts",
+            "C19_every_script_command", "C19_condition_site", "C19_condition_static", "C19_confined_sound_unflagged_refuted"]
 
-PRELUDE = ["arr = array a b \"c d\"", "arr2 = array x \"\"", "emp = array", "m = map", "map_put ${m} k v", "map_put ${m} k2 \"v 2\"",
+# contexts that exercise NATIVE commands (validation of the frame hypotheses of C19_confined_sound), not script commands
+NATIVE_CTX = ("pure-table", "fh_pure_random", "fh_flow", "fh_for", "fh_sbn", "fh_cond")
+# one entry per clause of ScriptBodyProof.frame_hyps: (clause, what it says, contexts that validate it)
+FRAME_HYPS = [
+    ("fh_pure", "a command of the variable-pure table leaves the variable map unchanged (the runner writes its output variable)", ("pure-table", "fh_pure_random")),
+    ("fh_flow", "else / end / end_if / endif / fi / end_while / endwhile / end_for change no variable", ("fh_flow",)),
+    ("fh_for", "for writes nothing or only the variable named by its first received argument", ("fh_for",)),
+    ("fh_sbn", "set_by_name with one received argument deletes exactly the variable of that name", ("fh_sbn",)),
+    ("fh_pre/fh_post", "the native parts of if / elif / elseif / while / not around eval_condition change no variable", ("fh_cond",)),
+]
+
+PRELUDE = ["arr = array a b \"c d\"", "arr2 = array x \"\"", "emp = array", "m = map", "emap = map", "eset = set_new", "map_put ${m} k v", "map_put ${m} k2 \"v 2\"",
            "s = set_new x y", "rel = array q", "release ${rel}", "a = set hello", "b = set \"a b\"", "n = set 2",
            "scope::other::keep = set mine", "plain = set 1"]
 # argument texts (already in script syntax)
@@ -29,11 +51,11 @@ VALID = {
     "array_contains": [["${arr}", "b"], ["${arr}", "zz"], ["${arr}", "\"c d\""], ["${emp}", "x"]],
     "array_is_empty": [["${arr}"], ["${emp}"]],
     "array_join": [["${arr}", ","], ["${arr}", "\"\""], ["${emp}", ","], ["${arr2}", "-"]],
-    "map_contains_key": [["${m}", "k"], ["${m}", "zz"]],
-    "map_contains_value": [["${m}", "v"], ["${m}", "zz"], ["${m}", "\"v 2\""]],
-    "map_is_empty": [["${m}"]],
+    "map_contains_value": [["${m}", "v"], ["${m}", "zz"], ["${m}", "\"v 2\""], ["${emap}", "v"]],
+    "map_contains_key": [["${m}", "k"], ["${m}", "zz"], ["${emap}", "k"]],
+    "map_is_empty": [["${m}"], ["${emap}"]],
     "set_from_array": [["${arr}"], ["${emp}"]],
-    "set_is_empty": [["${s}"]],
+    "set_is_empty": [["${s}"], ["${eset}"]],
     "is_windows": [[]],
     "print_env": [[]], "printenv": [[]],
     "uname": [[], ["-a"]],
@@ -78,30 +100,43 @@ def run(ck):
     # _run_sharded returns one line per input line: re-run directly for the multi-line answer
     import subprocess
     out = subprocess.run([os.path.join(vlib.ROOT, "ocaml", "bin", "c19_model")], input="TABLES\n", capture_output=True, text=True).stdout.split("\n")
-    scripts, pure, flow = [], [], []
+    scripts, pure, flow, condc, table_ok = [], [], [], [], None
     for l in out:
         f = l.split("\t")
         if f[0] == "SCRIPT":
             scripts.append({"path": dec_str(f[1]), "name": dec_str(f[2]), "aliases": dec_list(f[3]), "scope": dec_str(f[4]),
-                            "min_args": int(f[5]), "confined": f[6] == "T"})
+                            "min_args": int(f[5]), "confined": f[6] == "T", "confined_s": len(f) > 7 and f[7] == "T"})
         elif f[0] == "PURE":
             pure = dec_list(f[1])
         elif f[0] == "FLOW":
             flow = dec_list(f[1])
+        elif f[0] == "COND":
+            condc = dec_list(f[1])
+        elif f[0] == "TABLEOK":
+            table_ok = f[1] == "T"
     # tie of the regenerated table to the loaded registry: every script alias is a registered command and every registered
     # command whose run goes through the wrapper is in the table (names ending as in the table)
     reg = subprocess.run([os.path.join(vlib.CARGO_TARGET, "release", "listcmds")], capture_output=True, text=True).stdout.split("\n")
-    reg_aliases = set()
+    reg_aliases, reg_names = set(), set()
     for l in reg:
         f = l.split("\t")
         if len(f) == 2:
-            reg_aliases.update(f[1].split(" "))
+            reg_names.add(f[0])
+            reg_aliases.update(x for x in f[1].split(" ") if x)
     ck.obligations.append("regenerated script table: every alias is a registered SDK command")
     missing = [a for s in scripts for a in s["aliases"] if a not in reg_aliases]
     if missing or not scripts:
         ck.broken.append("regenerated script table vs registry: %s" % (missing or "empty table"))
     else:
         ck.discharged.append("script table vs registry")
+    # the scripts test only their own flags, which hold the outputs of boolean commands / `set true|false` / nothing:
+    # none of those values is a registered command, so such a test never runs a command (flag class (b) of the theorem)
+    ck.obligations.append("registry: the values a script flag can hold (true false 0 1 yes no, empty) are not registered commands")
+    boolish = [x for x in ("true", "false", "0", "1", "yes", "no", "") if x in reg_aliases or x in reg_names]
+    if boolish or not reg_aliases:
+        ck.broken.append("a boolean-looking value is a registered command: %s" % (boolish or "registry empty"))
+    else:
+        ck.discharged.append("boolean values are not commands")
 
     work = os.path.join(vlib.CACHE, "c19", "w%d" % os.getpid())
     shutil.rmtree(work, ignore_errors=True)
@@ -114,7 +149,10 @@ def run(ck):
             if alias == "wget":
                 argsets = [["http://127.0.0.1:1/x"], ["-O", "f", "http://127.0.0.1:1/x"], []]   # connection refused at once
             else:
-                argsets = VALID.get(alias, []) + GENERIC
+                # ... plus the wrapper's OWN working-variable names as argument values (a script that can delete or
+                # overwrite a variable by name - unset - must not be able to disturb the wrapper's clean-up)
+                sc = s["scope"] if s["scope"].startswith("scope::") else "scope::" + s["scope"]
+                argsets = VALID.get(alias, []) + GENERIC + [[sc + "::arguments"], [sc + "::argument::1"], ["x", sc + "::arguments"]]
             for args in argsets:
                 for cname, inv, allowed in contexts(alias, args, idx):
                     idx += 1
@@ -139,8 +177,49 @@ def run(ck):
             call = c + "".join(" " + a for a in args)
             cases.append(({"command": c, "args": args, "context": "pure-table", "script": "out = %s\n" % call, "scope": None},
                           "RUN\t%s\t%s\t%s" % (enc_str(prelude), enc_str("out = %s\n" % call), enc_list(["out"]))))
+    # ---- validation of the other frame hypotheses of C19_confined_sound on the real native commands -------------------
+    def native_case(ctx, inv, allowed, command):
+        cases.append(({"command": command, "args": [], "context": ctx, "script": inv, "scope": None},
+                      "RUN\t%s\t%s\t%s" % (enc_str(prelude), enc_str(inv), enc_list(allowed))))
+    for inv, allowed in [
+            ("if true\nx1 = set 1\nelse\nx1 = set 2\nend\n", ["x1"]), ("if false\nelse\nend_if\n", []), ("if false\nelif true\nendif\n", []),
+            ("if true\nfi\n", []), ("w = set 0\nwhile equals ${w} 0\nw = set 1\nend_while\n", ["w"]),
+            ("w = set 0\nwhile equals ${w} 0\nw = set 1\nendwhile\n", ["w"]), ("for i in ${arr}\nend_for\n", ["i"]),
+            ("else\n", []), ("end\n", []), ("end_if\n", []), ("end_while\n", []), ("end_for\n", []), ("fi\n", []), ("endif\n", []), ("endwhile\n", [])]:
+        native_case("fh_flow", inv, allowed, "flow keywords")
+    for inv, allowed in [
+            ("for i in ${arr}\nend\n", ["i"]), ("for i in ${emp}\nend\n", ["i"]), ("for i in\n", ["i"]), ("for i of ${arr}\n", ["i"]), ("for\n", []),
+            ("for i in ${m}\nend\n", ["i"]), ("for i in nope\nend\n", ["i"]), ("for a in ${arr}\nend\n", ["a"]), ("for i in ${arr2}\nend\n", ["i"])]:
+        native_case("fh_for", inv, allowed, "for")
+    # `marker` appears among the new variables iff the named variable is still defined afterwards
+    for inv, allowed in [
+            ("set_by_name a\nif is_defined a\nmarker = set 1\nend\n", ["a"]), ("set_by_name nope\n", ["nope"]), ("set_by_name\n", []),
+            ("set_by_name plain\nif is_defined plain\nmarker = set 1\nend\n", ["plain"]),
+            ("set_by_name scope::other::keep\nif is_defined scope::other::keep\nmarker = set 1\nend\n", ["scope::other::keep"])]:
+        native_case("fh_sbn", inv, allowed, "set_by_name")
+    for inv, allowed in [
+            ("if true\nend\n", []), ("if false\nend\n", []), ("if ${a}\nend\n", []), ("if ${nope}\nend\n", []), ("if true and false\nend\n", []),
+            ("if ( true or false )\nend\n", []), ("while false\nend\n", []), ("out = not true\n", ["out"]), ("out = not ${a}\n", ["out"]), ("if\nend\n", []),
+            ("if false\nelif ${a}\nend\n", []), ("if false\nelseif false\nelse\nend\n", []), ("elif true\n", []), ("elseif true\n", []),
+            ("if equals a b\nend\n", []), ("if not equals a a\nend\n", []), ("if is_array ${arr}\nend\n", []),
+            ("while contains abc z\nend\n", []), ("out = not equals a a\n", ["out"]), ("not\n", []), ("while\nend\n", [])]:
+        native_case("fh_cond", inv, allowed, "if/elif/while/not")
+    # seeded: variable-pure commands x random argument lists (commands that touch the file system / network or that
+    # evaluate their arguments as a condition are left to the fixed lists above)
+    skip_random = set(script_aliases) | {"http_client", "trigger_error", "cp", "chmod", "glob_array", "globarray", "digest", "not",
+                                         "is_file", "is_dir", "dirname", "basename", "env_to_map", "map_to_properties", "echo"}
+    rnd_cmds = [c for c in pure if c not in skip_random]
+    tokens = ["${arr}", "${arr2}", "${emp}", "${m}", "${s}", "${a}", "${b}", "${n}", "${nope}", "a", "b", "k", "k2", "x", "0", "1", "2", "-1", "+", "-", "*",
+              "\"x y\"", "\"\"", "handle:zz", "é", "scope::other::keep", "plain"]
+    for _ in range(600 if thorough else 150):
+        c = rng.choice(rnd_cmds)
+        args = [rng.choice(tokens) for _ in range(rng.randint(0, 4))]
+        call = c + "".join(" " + a for a in args)
+        cases.append(({"command": c, "args": args, "context": "fh_pure_random", "script": "out = %s\n" % call, "scope": None},
+                      "RUN\t%s\t%s\t%s" % (enc_str(prelude), enc_str("out = %s\n" % call), enc_list(["out"]))))
     res = ck.impl([l for _, l in cases], args=())
     dist = {}
+    hyp_done = {}
     nontriv = set()
     for k, ((d, line), r) in enumerate(zip(cases, res)):
         f = r.split("\t")
@@ -148,16 +227,18 @@ def run(ck):
         dist[d["context"] + ":" + st] = dist.get(d["context"] + ":" + st, 0) + 1
         if len(f) != 6:
             # PANIC / FAIL...: a script command must not make the run fail; crashes inside pure-table cases are C07's business
-            if d["context"] != "pure-table" and not st.startswith("FAIL"):
+            if d["context"] not in NATIVE_CTX and not st.startswith("FAIL"):
                 found = True
                 if len(ck.violations) < 5:
                     ck.violation({"kind": "invocation did not complete", "case": d, "result": r, "wire": line})
-            elif d["context"] != "pure-table" and "Memory leak" in dec_str(f[0].split(" ")[1] if " " in f[0] else "e"):
+            elif d["context"] not in NATIVE_CTX and "Memory leak" in dec_str(f[0].split(" ")[1] if " " in f[0] else "e"):
                 found = True
                 if len(ck.violations) < 5:
                     ck.violation({"kind": "wrapper reported a memory leak", "case": d, "result": r, "wire": line})
             continue
         fields = dict(x.split("=", 1) for x in f[1:])
+        if d["context"] in NATIVE_CTX:
+            hyp_done[d["context"]] = hyp_done.get(d["context"], 0) + 1
         changed, new, gone, scoped = (dec_list(fields[k2]) for k2 in ("changed", "new", "gone", "scoped"))
         handles = int(fields["handles"])
         nontriv.add((d["command"], tuple(d["args"]), d["context"]))
@@ -170,7 +251,7 @@ def run(ck):
             bad.append("caller variables deleted: %s" % gone)
         if scoped:
             bad.append("working variables left under a scope prefix: %s" % scoped)
-        if handles and d["context"] != "pure-table":
+        if handles and d["context"] not in NATIVE_CTX:
             # collections other than the documented output left behind; on an ERROR path a partially built result may
             # remain (not an argument-passing temporary): only the success path is constrained here
             # commands whose documented OUTPUT is a new collection: one per invocation may exist without a variable referring
@@ -182,10 +263,15 @@ def run(ck):
         if bad:
             found = True
             if len(ck.violations) < 5:
-                ck.violation({"kind": "script command leaves a trace" if d["context"] != "pure-table" else
-                              "a command of the variable-pure table writes variables (the syntactic check's table is wrong for this tree)",
-                              "case": d, "observed": bad, "result": r, "wire": line, "theorems": ["C19_scripts", "C19_caller_variables"],
-                              "seed": ck.seed})
+                hyp = [h for h, _, ctxs in FRAME_HYPS if d["context"] in ctxs]
+                ck.violation({"kind": "script command leaves a trace" if d["context"] not in NATIVE_CTX else
+                              "frame hypothesis %s of C19_confined_sound does not hold for the native command of this tree "
+                              "(the syntactic check's tables are wrong for it)" % (hyp[0] if hyp else "?"),
+                              "case": d, "observed": bad, "result": r, "wire": line,
+                              "theorems": ["C19_scripts", "C19_caller_variables"] if d["context"] not in NATIVE_CTX else
+                                          ["C19_confined_sound", "C19_every_script_command"],
+                              "seed": ck.seed,
+                              "replay_cmd": "printf '%%s\\n' '%s' | %s" % (line.replace("\t", "\\t"), os.path.join(vlib.CARGO_TARGET, "release", "c19"))})
     shutil.rmtree(work, ignore_errors=True)
     ck.obligations.append("every regenerated script passes script_confined (extracted, per script)")
     notc = [s["aliases"][0] for s in scripts if not s["confined"]]
@@ -193,6 +279,43 @@ def run(ck):
         ck.broken.append("script_confined = false for: %s" % notc)
     else:
         ck.discharged.append("script_confined per script")
+    ck.obligations.append("every regenerated script passes the strengthened check script_confined_s, and table_ok_s gen_table (extracted)")
+    nots = [s["aliases"][0] for s in scripts if not s["confined_s"]]
+    if nots or table_ok is not True:
+        ck.broken.append("script_confined_s = false for: %s ; table_ok_s = %s (a regenerated script fails the check the soundness theorem needs)" % (nots, table_ok))
+    else:
+        ck.discharged.append("script_confined_s per script")
+    # every clause of frame_hyps has a named validation that actually ran on the real SDK
+    frame_validation = {}
+    for h, text, ctxs in FRAME_HYPS:
+        ran = sum(hyp_done.get(c, 0) for c in ctxs)
+        frame_validation[h] = {"says": text, "contexts": list(ctxs), "cases_completed": ran}
+        ck.obligations.append("frame hypothesis %s validated on the real SDK" % h)
+        if ran == 0:
+            ck.broken.append("frame hypothesis %s: no validation case ran to completion" % h)
+        else:
+            ck.discharged.append("frame hypothesis %s (%d cases)" % (h, ran))
+    # the counterexample of C19_confined_sound_unflagged_refuted: extracted model vs the real SDK
+    ck.obligations.append("witness of C19_confined_sound_unflagged_refuted: extracted model and real SDK agree")
+    wm = subprocess.run([os.path.join(vlib.ROOT, "ocaml", "bin", "c19_model")], input="WITNESS\n", capture_output=True, text=True).stdout.strip().split("\t")
+    wpre = prelude + "is_array = set keepme\n"
+    wi = ck.impl(["RUN\t%s\t%s\t%s" % (enc_str(wpre), enc_str("out = array_concat =\n"), enc_list(["out"]))], args=())[0].split("\t")
+    model_deletes = wm[:1] == ["WITNESS"] and len(wm) == 3 and wm[1] == "T" and wm[2] == "F"
+    impl_gone = dec_list(dict(x.split("=", 1) for x in wi[1:])["gone"]) if len(wi) == 6 else None
+    witness = {"model": wm, "impl": wi, "impl_gone": impl_gone}
+    if model_deletes and impl_gone == ["is_array"]:
+        ck.discharged.append("witness model == implementation")
+        ck.known("KF-C19-1: `array_concat =` (any script command whose condition re-parses an argument value: array_concat, array_join, "
+                 "set_from_array ...) deletes the caller's variable `is_array`: utils/eval.rs::parse turns the received arguments "
+                 "[is_array, =] into the line `is_array = `, an assignment without a command (consequence of C09 F7-E inside a script command)")
+    elif model_deletes and impl_gone == []:
+        # the defect no longer reproduces on the real SDK: on this input the implementation now does what the PROPERTY
+        # says (the caller's variable survives).  That is not an alarm; the finding is simply not reported.
+        ck.discharged.append("witness: the implementation no longer deletes the caller's variable (finding KF-C19-1 not reproduced)")
+        witness["note"] = "KF-C19-1 does not reproduce on this tree: the property holds on the witness input"
+    else:
+        ck.broken.append("witness of C19_confined_sound_unflagged_refuted: model says flag up and is_array deleted = %s, real SDK deleted %s "
+                         "(the model of the condition re-parse no longer corresponds to utils/eval.rs / utils/condition.rs)" % (model_deletes, impl_gone))
     ck.coverage.update({
         "evaluations": len(cases),
         "distinct_nontrivial": len(nontriv),
@@ -206,12 +329,28 @@ def run(ck):
         "status_distribution": dist,
         "script_commands": [s["aliases"] for s in scripts],
         "pure_table": pure,
-        "not_proved": "confined_sound (script_confined s = true -> the interpreted script is confined): covered by this run only",
+        "frame_hypotheses": frame_validation,
+        "witness_unflagged_refuted": witness,
+        "cond_commands": condc,
+        "confined_sound": "proved (C19_confined_sound / C19_confined_sound_scripts / C19_every_script_command) for all native commands satisfying "
+                          "frame_hyps and all runs that end with the ghost flag down; the flag hypothesis is necessary (C19_confined_sound_unflagged_refuted)",
+        "not_proved": "that the flag stays down for value-headed conditions (`if ${flag}`): needs a value analysis of the scripts' own flags "
+                      "(they hold outputs of boolean commands; this run checks that no such value is a registered command). "
+                      "The native commands are not modelled: frame_hyps is validated against them here, not proved",
     })
     ck.report_broken(found)
     ck.assumptions += [
-        "the nested mini-runner executing a script body is a parameter of the wrapper theorem (any body)",
-        "the table of variable-pure native commands is an assertion validated against the real commands on every run, not proved",
+        "wrapper theorems (C19_no_working_variable ... C19_leak_check_never_fires): the body is a parameter (any body); "
+        "C19_every_script_command instantiates it with the model of eval_instructions (ScriptBody.v)",
+        "frame_hyps (hypothesis of C19_confined_sound*, C19_every_script_command) — assumptions about NATIVE commands, validated on the real SDK "
+        "on every run, not proved: " + "; ".join("%s: %s [validated by %s, %d cases]" % (h, v["says"], "+".join(v["contexts"]), v["cases_completed"])
+                                                  for h, v in frame_validation.items()),
+        "ghost flag down (hypothesis of the same theorems): no condition re-parse produced an instruction outside the check. Excluded runs: received "
+        "condition arguments outside C09's safe classes (known finding KF-C19-1 / C09 F7-*), or a tested value that names a registered command outside the tables",
+        "reserved prefixes: caller variables under scope::<scope of ANY script command>:: are outside the theorem (each wrapper clears its own prefix, also when "
+        "called from another script command)",
+        "handle contents, flow-control stacks, the command registry and the environment are one abstract state the native commands may change freely; "
+        "only the handle KEY set is tracked (argument array released)",
         "caller variables under the command's own reserved prefix scope::<name>:: are deleted by the wrapper (by design: C19_no_working_variable shows it); the run uses a caller variable under a different scope prefix",
         "collections left behind on an error path other than the argument array (e.g. array_concat's partially built result) are not constrained by the property",
     ]
